@@ -25,6 +25,9 @@ CHECKS = {
  "C14": dict(cat="exploration", tech="round-trip oracle + lenient reference decoder compared call-by-call with the repository decoder on mutated event data; events harvested from the real app's responses",
    text="Values of all 8 event types over boundary inputs are encoded with MakeABCIEvent and decoded with MakeEvent and must come back identical; every event the real app emits in generated histories must decode to what the transaction carried; mutated attribute lists/strings are judged by an independent lenient decoder (repository accepts => reference defined and equal; reference undefined => repository errors; never a panic).",
    note="Go toolchain; refimpl.EventDecode (lenient reference, ~150 lines); blst for curve-point validity; smchain for app-emitted events", ref="§3 C14"),
+ "C17": dict(cat="exploration", tech="panic guard + exact allocation meter + process journal around Match/Unmarshal on hostile logs; reference matcher (docs/event.md) compared on well-formed logs; filter-implication and round-trip oracles",
+   text="Generated definitions (all operators, topic/data/dynamic references, boundary arguments) are matched against logs built around every referenced word with hostile offsets and lengths up to 2^64-1: no panic, allocation <= 64KiB+64*size, answers equal to the documented semantics wherever the log is well formed; valid definitions must round-trip, have a derivable filter, and every matching log must pass that filter; decoder inputs (mutated encodings, random bytes) must never yield an invalid definition.",
+   note="Go toolchain; refimpl.Match / refimpl.FilterPass (from docs/event.md and go-ethereum filter semantics); 'valid' = repository Validate", ref="§3 C17"),
 }
 
 NOT_APPLICABLE = {
